@@ -302,6 +302,18 @@ def run_property(prop, rules, level, explanation, assumptions, tier, all_targets
             tb = traceback.format_exc().strip().split("\n")
             print("RULE-CRASH rule=%s %r at %s" % (rid, e, tb[-3].strip() if len(tb) >= 3 else ""))
             R.undecided(rid, "crash", "the rule crashed on this shape of the code (%r); it decides nothing here" % (e,))
+    if P is not None:
+        # cross-cutting state discipline (memoisation / process-wide state) over the code this property is about
+        try:
+            import xstate
+            if prop in xstate.SCOPES:
+                xstate.state_rules(P, R, prop)
+        except AnchorMissing as e:
+            R.undecided("R%s-s" % prop[1:], "anchor", "kind=anchor-missing: %s" % e)
+        except Exception as e:
+            tb = traceback.format_exc().strip().split("\n")
+            print("RULE-CRASH rule=R%s-s %r at %s" % (prop[1:], e, tb[-3].strip() if len(tb) >= 3 else ""))
+            R.undecided("R%s-s" % prop[1:], "crash", "the state rules crashed on this shape of the code (%r)" % (e,))
     if tier == "thorough" and not os.environ.get("VERIF_SUBRUN"):
         import selftest
         st = selftest.run(prop)
